@@ -100,7 +100,7 @@ func feedReader(x *X, name, codec string, used bool, data []byte) (accepted bool
 		return true, nil, ""
 	}
 	ct := contByName[name]
-	recv := newReceiver(ct, likeOf(ct), used)
+	recv := newReceiver(ct, likeOf(ct), recvKind(used), nil)
 	err, pc := decodeInto(x, recv, codec, data, "method")
 	if pc != "" {
 		return false, nil, "decode → panic:" + pc
